@@ -107,7 +107,7 @@ theorem runLoops_calm (v cur upd f p) : (runLoops v cur upd f p).2.calm := by
 /-- the fold of `firstUnhealthy`, named -/
 def fuStep (acc : (Option Pod × Int) × Nat) (p : Pod) : (Option Pod × Int) × Nat :=
   if !p.healthy then
-    if p.ord < acc.1.2 then ((some p, p.ord), acc.2 + 1) else (acc.1, acc.2 + 1)
+    if acc.1.1.isNone || p.ord < acc.1.2 then ((some p, p.ord), acc.2 + 1) else (acc.1, acc.2 + 1)
   else acc
 
 theorem firstUnhealthy_eq (ps : List Pod) :
@@ -125,12 +125,11 @@ theorem fuStep_inv (ps : List Pod) (hord : ∀ p ∈ ps, p.ord < maxInt32) (acc 
     unfold fuStep
     by_cases hh : (!p.healthy) = true
     · simp only [hh, if_true]
-      by_cases hlt : p.ord < acc.1.2
+      by_cases hlt : (acc.1.1.isNone || decide (p.ord < acc.1.2)) = true
       · simp [hlt]
-      · simp only [hlt, if_false]
+      · simp only [hlt, Bool.false_eq_true, if_false]
         intro hnone
-        have := (hacc hnone).1
-        omega
+        simp [hnone] at hlt
     · simp only [hh, Bool.false_eq_true, if_false]; exact hacc
 
 /-- If every scanned pod has an ordinal below the sentinel, a positive unhealthy count comes with a first unhealthy pod. -/
@@ -273,6 +272,65 @@ theorem updateStatefulSet_calm (v : SetView) (cur upd : String) (pods : List Pod
   unfold updateStatefulSet
   cases hp : prepare v cur upd pods with
   | error e => obtain ⟨st, o⟩ := e; exact absurd hp (prepare_calm v cur upd pods r hr hb hord st o)
+  | ok p =>
+    simp only
+    split_ifs
+    · exact Or.inl rfl
+    · exact runLoops_calm ..
+
+/-! ### the repaired scan: no bound on ordinals needed -/
+
+theorem fuStep_inv' (ps : List Pod) (acc : (Option Pod × Int) × Nat) (hacc : acc.1.1 = none → acc.2 = 0) :
+    (ps.foldl fuStep acc).1.1 = none → (ps.foldl fuStep acc).2 = 0 := by
+  induction ps generalizing acc with
+  | nil => simpa using hacc
+  | cons p rest ih =>
+    simp only [List.foldl_cons]
+    apply ih
+    unfold fuStep
+    by_cases hh : (!p.healthy) = true
+    · simp only [hh, if_true]
+      by_cases hlt : (acc.1.1.isNone || decide (p.ord < acc.1.2)) = true
+      · simp [hlt]
+      · simp only [hlt, Bool.false_eq_true, if_false]
+        intro hnone
+        simp [hnone] at hlt
+    · simp only [hh, Bool.false_eq_true, if_false]; exact hacc
+
+/-- A positive unhealthy count comes with a first unhealthy pod, whatever the ordinals (the first unhealthy pod met is
+    recorded unconditionally). -/
+theorem firstUnhealthy_some' (ps : List Pod) :
+    (firstUnhealthy ps).2 > 0 → (firstUnhealthy ps).1.isSome = true := by
+  rw [firstUnhealthy_eq]
+  intro hpos
+  have := fuStep_inv' ps ((none, maxInt32), 0) (by simp)
+  cases h : (ps.foldl fuStep ((none, maxInt32), 0)).1.1 with
+  | none => have := this h; simp only at hpos; omega
+  | some q => simp
+
+theorem prepare_calm' (v : SetView) (cur upd : String) (pods : List Pod) (r : Int) (hr : v.replicas = some r) :
+    ∀ st o, prepare v cur upd pods ≠ .error (st, o) := by
+  intro st o
+  unfold prepare
+  rw [hr]
+  simp only
+  split_ifs with hc
+  · exfalso
+    simp only [Bool.and_eq_true, decide_eq_true_eq] at hc
+    obtain ⟨hpos, hnone⟩ := hc
+    have := firstUnhealthy_some' _ hpos
+    rw [Option.isNone_iff_eq_none] at hnone
+    rw [hnone] at this
+    simp at this
+  · simp
+
+/-- C15, reconcile part, without any bound on ordinals or on the replica count -/
+theorem updateStatefulSet_calm' (v : SetView) (cur upd : String) (pods : List Pod) (f : Faults) (r : Int)
+    (hr : v.replicas = some r) :
+    (updateStatefulSet v cur upd pods f).2.calm := by
+  unfold updateStatefulSet
+  cases hp : prepare v cur upd pods with
+  | error e => obtain ⟨st, o⟩ := e; exact absurd hp (prepare_calm' v cur upd pods r hr st o)
   | ok p =>
     simp only
     split_ifs
